@@ -2,7 +2,7 @@
 from props_common import COMMON_NOTE
 
 CONF = dict(
-    families=[('adrform', 45, 600), ('b32cb', 100, 1500), ('adrdec', 260, 4000), ('adrenc', 150, 2000), ('adrpay', 60, 800), ('adrscr', 40, 500)],
+    families=[('adrform', 45, 600), ('b32cb', 100, 1500), ('adrdec', 260, 4000), ('adrenc', 150, 2000), ('adrpay', 60, 800), ('adrscr', 40, 500), ('adrhist', 90, 1500)],
     compare=None,
     trusted=['modelled by hand: address/address.go (all exported functions), the address methods of payment/payment.go and payment/p2tr.go, txscript push encoding for data up to 75 bytes; '
              'network parameters and the address-type enumeration are regenerated from network/network.go and address/address.go on every run (Gen/NetConsts.v, Gen/AddressConsts.v); '
@@ -14,7 +14,7 @@ CONF = dict(
                 'ToConfidential/FromConfidential preserve address, key and script; version bytes and prefixes of the networks are pairwise disjoint (vm_compute over regenerated constants); payment address methods are these encoders. '
                 'after fix e7c9f3c the former refutations are positive theorems: the other checksum constant is rejected, and every string FromBech32 (version 0/1) or FromBlech32 accepts, in either case, re-encodes to its lower-case spelling (blech32 side via C15 decode_encode: the twelve checksum symbols are determined by the rest). '
                 'K: every exported function of package address and the payment address methods against the model on valid, mutated and malformed strings. '
-                'S: 5 script types x confidential or not x 3 networks on random payloads through the real API (all clauses), every recognised string re-encoded, case and checksum-constant clauses as separate cases.',
+                'S: 5 script types x confidential or not x 3 networks on random payloads through the real API (all clauses), every recognised string re-encoded, case and checksum-constant clauses as separate cases; histories (adrhist): decode, overwrite every returned slice over its full capacity, interleave with a sibling address, decode again -- the answers and the re-encoding must not change (K: the model is a pure function of the string, so the last answers of a history must equal it).',
 )
 
 TEXT = dict(
